@@ -707,7 +707,7 @@ func (x *vc) builtin(fr *frame, st *state, b *ssa.Builtin, cc *ssa.CallCommon, a
 		case *types.Map:
 			_, _, l := x.mapArrs(st, a.Typ.Underlying().(*types.Map))
 			v := Val{T: x.define("maplen", sInt, ite(eq(a.T, "0"), "0", app("select", st.heap[l], a.T))), Typ: resT}
-			x.assume(st.guard, app("<=", "0", v.T))
+			x.assume(st.guard, and(app("<=", "0", v.T), app("<=", v.T, "2305843009213693952"))) // machine assumption shared with strings and slices: a length fits the address space
 			return v
 		case *types.Pointer:
 			if at, ok := a.Typ.Underlying().(*types.Pointer).Elem().Underlying().(*types.Array); ok {
